@@ -315,6 +315,68 @@ theorem C18_window_chain (cs : Nat → Cfg) (b : Bool) (k : Nat)
   have h2 := C18_window (cs k) hexp t0 _ (mono_traceC cs b k es (fun _ => Store.init t0) 0 hm) id t1 t2
   exact Nat.le_trans (Nat.mul_le_mul_right _ h1) h2
 
+/-! ## a denied request costs nothing (round 6)
+
+`rate.Limiter.AllowN` changes the limiter only when it admits (`reserveN` with `maxFutureReserve = 0`
+does not book anything for a refused request), and the middleware does nothing else on a denial
+than answering 429: however often an identifier is refused, its allowance refills as if those
+requests had never been made. -/
+
+theorem allowN_refused (c : Cfg) (b : Bucket) (t : Nat) (h : (allowN c b t).2 = false) :
+    (allowN c b t).1 = b := by
+  rcases allowN_spec c b t with ⟨hok, _⟩ | ⟨_, hb, _⟩
+  · rw [hok] at h; cases h
+  · exact hb
+
+/-- **C18_denied_free** — a request that the middleware refuses (429, handler not run) leaves the
+    level of EVERY identifier's bucket, the refused one included, at every later instant exactly
+    where it was: refusals cannot prolong a refusal. -/
+theorem C18_denied_free (c : Cfg) (hexp : c.full ≤ ((c.expiresIn * c.rateNum : Nat) : Int))
+    (st : Store α) (now : Nat) (hinv : Inv c st now) (id : α) (t : Nat)
+    (hden : (step c st ⟨t, .http, id⟩).2.ran = false) (i : α) (τ : Nat) (hτ : t ≤ τ) :
+    (step c st ⟨t, .http, id⟩).2.status = 429 ∧
+    level c ((step c st ⟨t, .http, id⟩).1.visitors i) τ = level c (st.visitors i) τ := by
+  obtain ⟨hran, hst, h429, _⟩ := (C18_middleware c st t id).1
+  rw [hran] at hden
+  refine ⟨h429 hden, ?_⟩
+  rw [hst, allow_level c hexp st now hinv id t i τ hτ]
+  simp [hden]
+
+/-- the instants of a bucket history that were admitted -/
+def admittedOnly (c : Cfg) : Bucket → List Nat → List Nat
+  | _, [] => []
+  | b, t :: ts =>
+    if (allowN c b t).2 then t :: admittedOnly c (allowN c b t).1 ts else admittedOnly c (allowN c b t).1 ts
+
+/-- **C18_denied_free_history** — for one identifier's bucket and ANY arrival pattern: the
+    requests that were admitted are admitted just the same when the refused requests between them
+    are left out, and the bucket ends in the same state.  (With `C18_independent_bucket` /
+    `C18_chain_projection` this is a statement about every identifier of every store.) -/
+theorem C18_denied_free_history (c : Cfg) (ts : List Nat) : ∀ b : Bucket,
+    bucketRun c b (admittedOnly c b ts) = (admittedOnly c b ts).map (fun _ => true) ∧
+    (admittedOnly c b ts).length = ((bucketRun c b ts).filter (· = true)).length := by
+  induction ts with
+  | nil => intro b; simp [admittedOnly, bucketRun]
+  | cons t ts ih =>
+    intro b
+    by_cases h : (allowN c b t).2 = true
+    · simp only [admittedOnly, h, ite_true, bucketRun, List.map_cons, List.filter_cons, decide_true,
+        List.length_cons]
+      obtain ⟨h1, h2⟩ := ih (allowN c b t).1
+      exact ⟨by rw [h1], by rw [h2]⟩
+    · have hf : (allowN c b t).2 = false := by simpa using h
+      simp only [admittedOnly, hf, Bool.false_eq_true, ite_false, bucketRun, List.filter_cons,
+        decide_false]
+      rw [allowN_refused c b t hf]
+      exact ih b
+
+/-- rate 1/s, burst 2: two admitted and three refused at t = 0, back at 1.5 s: admitted -/
+example : bucketRun (mkCfg ⟨1, 1, 2, 0⟩) (fresh (mkCfg ⟨1, 1, 2, 0⟩)) [0, 0, 0, 0, 0, 1500000000] =
+    [true, true, false, false, false, true] := by decide
+example : (runC (fun _ => mkCfg ⟨1, 1, 2, 0⟩) false (fun _ => Store.init 0)
+    [⟨0, .http, 7, [0]⟩, ⟨0, .http, 7, [0]⟩, ⟨0, .http, 7, [0]⟩, ⟨0, .http, 7, [0]⟩, ⟨0, .http, 7, [0]⟩,
+     ⟨1500000000, .http, 7, [0]⟩]).map (·.status) = [200, 200, 429, 429, 429, 200] := by decide
+
 /-! ## non-vacuity: a coarse limiter on the group, a strict one on the route -/
 
 def cfgCoarse : Cfg := mkCfg ⟨100, 1, 100, 0⟩
